@@ -1,6 +1,8 @@
 PROP = dict(
     engine="chain", harness="chain", driver="drv_chain",
     props=["Hostd.Props.C01"],
+    shard_extra=[dict(level="store"), dict(level="mgr")],
+    driver_args=["c01/"],
     flag_filter=r"^c01/",
     quick=dict(n=96, len=40, shards=8, timeout=300),
     thorough=dict(n=4000, len=60, shards=16, timeout=1700),
